@@ -26,7 +26,7 @@ SPEC = dict(
         "hand-written class schemas lean/Qx/Xml/Codec/Classes.lean, tied to the C++ fromDom/toXml pairs by the codec correspondence",
     ],
     assumptions=[
-        "the scalars harness runs in TZ=Asia/Kolkata (+05:30, one offset for all dates = model parameter loc/harnessLocalOffset); the codec harness runs in UTC (dtParseCode = dtParseCodeAt 0)",
+        "the scalars harness runs in TZ=Asia/Kolkata (+05:30, one offset for all dates = model parameter loc/harnessLocalOffset); the codec harness runs in UTC (dtParseCode = dtParseCodeAt 0); well-formed UTF-16 (no lone surrogates)",
         "classes without a schema (measured fraction in coverage.stats.codec) are covered by tiers A/B and by the model-independent oracle only",
     ],
     level_text="Theorems for all strings/values: escaping is invertible and metacharacter-free (no markup injection), parse(render t) = t on "
